@@ -100,15 +100,25 @@ func matchCompFilter(filter CompFilter, comp *ical.Component) (bool, error) {
 }
 
 func matchPropFilter(filter PropFilter, comp *ical.Component) (bool, error) {
-	// TODO: this only matches first field, there can be multiple
-	field := comp.Props.Get(filter.Name)
-	if field == nil {
-		return filter.IsNotDefined, nil
-	}
+	fields := comp.Props.Values(filter.Name)
 	if filter.IsNotDefined {
-		return false, nil
+		return len(fields) == 0, nil
 	}
 
+	// the filter matches if any property of that name matches
+	for i := range fields {
+		match, err := matchProp(filter, &fields[i])
+		if err != nil {
+			return false, err
+		}
+		if match {
+			return true, nil
+		}
+	}
+	return false, nil
+}
+
+func matchProp(filter PropFilter, field *ical.Prop) (bool, error) {
 	for _, paramFilter := range filter.ParamFilter {
 		if !matchParamFilter(paramFilter, field) {
 			return false, nil
@@ -123,13 +133,10 @@ func matchPropFilter(filter PropFilter, comp *ical.Component) (bool, error) {
 		if !match {
 			return false, nil
 		}
-	} else if filter.TextMatch != nil {
-		if !matchTextMatch(*filter.TextMatch, field.Value) {
-			return false, nil
-		}
-		return true, nil
 	}
-	// empty prop-filter, property exists
+	if filter.TextMatch != nil && !matchTextMatch(*filter.TextMatch, field.Value) {
+		return false, nil
+	}
 	return true, nil
 }
 
